@@ -240,7 +240,8 @@ def gen_case(rng, small=False):
     ny = rng.choice([0, 1, 1, 2, 3, 4, 5, 6, 7]) if not small else rng.randint(1, 4)
     nx = rng.choice([0, 1, 2, 2, 3, 4, 5, 6, 7, 8]) if not small else rng.randint(1, 4)
     names = list(rng.choice(NAMESETS))
-    kind = rng.choice(['plain', 'plain', 'alias', 'alias', 'decoy', 'xyname', 'invalid', 'unit', 'unit'])
+    kind = rng.choice(['plain', 'plain', 'alias', 'alias', 'decoy', 'xyname', 'invalid', 'unit', 'unit', 'shared',
+                       'shared', 'alias-all'])
     if kind == 'unit':
         names = list(NAMESETS[0]) if rng.random() < 0.6 else names
     has_bbox = rng.random() < 0.8
@@ -264,17 +265,48 @@ def gen_case(rng, small=False):
             present = [p for p in present if p != names[0]]
         elif names[0] not in present:
             present.append(names[0])
+    if kind == 'alias-all' and names[6] not in present:
+        present.append(names[6])
     colname = {p: p for p in present}
     pm = {}
+    if kind == 'alias-all':
+        # NO column other than (possibly) the positions carries the name of a model parameter: every other
+        # parameter, incl. the one that sizes the bounding box, comes in through params_map
+        for p in present:
+            if p not in (names[1], names[2]) or rng.random() < 0.3:
+                colname[p] = rng.choice(['col_', 'my_', 'X']) + p
+                pm[p] = colname[p]
     if kind in ('alias', 'decoy', 'unit', 'invalid'):
         for p in present:
             if rng.random() < (0.5 if kind != 'unit' else 0.25):
                 colname[p] = rng.choice(['col_', 'my_', 'X']) + p
                 pm[p] = colname[p]
+    if kind == 'shared':
+        # NON-injective maps: several parameters take their value from ONE column (a fresh column, or the
+        # column that carries the name of one of them), incl. the two position parameters
+        for p in (names[3], names[4]):
+            if p not in present:
+                present.append(p)
+                colname[p] = p
+        groups = [(names[3], names[4]), (names[1], names[2]), (names[0], names[5])]
+        groups = [g for g in groups if g[0] in present and g[1] in present]
+        picked = [g for g in groups if rng.random() < 0.5] or [groups[0]]
+        for g in picked:
+            a, b = g if rng.random() < 0.5 else g[::-1]
+            col = a if rng.random() < 0.4 else 'sh_' + a
+            colname[a] = colname[b] = col
+            pm[b] = col
+            if col != a:
+                pm[a] = col
+        # some of the other parameters under an alias as well
+        for p in present:
+            if colname[p] == p and p not in pm.values() and rng.random() < 0.25:
+                colname[p] = 'col_' + p
+                pm[p] = colname[p]
     if names[1] != 'x_0' or kind == 'xyname' or rng.random() < 0.3:
         case['x_name'] = names[1]
         case['y_name'] = names[2]
-    cols = [colname[p] for p in present]
+    cols = list(dict.fromkeys(colname[p] for p in present))
     decoys = []
     if kind == 'decoy':
         # a column that matches the parameter name although params_map points elsewhere
@@ -293,6 +325,8 @@ def gen_case(rng, small=False):
         case['params_map'] = []
     # shapes
     smode = rng.choice(['arg', 'arg', 'argint', 'col1d', 'col2d', 'bbox', 'bbox', 'bboxf'])
+    if kind == 'alias-all':
+        smode = rng.choice(['bbox', 'bbox', 'bboxf'])       # window from the (per-row) bounding box
     if smode == 'arg':
         case['mshape'] = [rng.randint(1, 6), rng.randint(1, 6)]
     elif smode == 'argint':
@@ -543,7 +577,7 @@ def signature(case, res, want):
 # --------------------------------------------------------------------------
 # support tests (library numerics; not part of the proved model)
 # --------------------------------------------------------------------------
-def float_oracle(shape, model, tbl, xn, yn, model_shape, method='center', factor=10):
+def float_oracle(shape, model, tbl, xn, yn, model_shape, method='center', factor=10, pmap=None):
     """superposition by definition, in floats; returns (image, sum of |terms|)."""
     from astropy.convolution import discretize_model
     ny, nx = shape
@@ -552,8 +586,9 @@ def float_oracle(shape, model, tbl, xn, yn, model_shape, method='center', factor
     for row in tbl:
         m = model.copy()
         for p in m.param_names:
-            if p in tbl.colnames:
-                setattr(m, p, row[p])
+            col = (pmap or {}).get(p, p)               # params_map wins over a column named like the parameter
+            if col in tbl.colnames:
+                setattr(m, p, row[col])
         x0 = float(getattr(m, xn).value)
         y0 = float(getattr(m, yn).value)
         sh = model_shape(m) if callable(model_shape) else model_shape
@@ -783,6 +818,98 @@ def support_windows(ctx, n):
                           detail)
 
 
+def _map_model(which):
+    """-> model, x_name, y_name, params_map, {column: (lo, hi) or 'x' / 'y'} for the params_map forms."""
+    from astropy.modeling.models import Gaussian2D
+    from photutils.psf import CircularGaussianPRF, GaussianPRF
+    if which == 'gauss-circ':            # two parameters <- one column
+        return (Gaussian2D(1, 0, 0, 1.3, 0.8, 0.0), 'x_mean', 'y_mean',
+                {'x_stddev': 'sigma', 'y_stddev': 'sigma'},
+                {'x_mean': 'x', 'y_mean': 'y', 'amplitude': (0.5, 50), 'sigma': (0.5, 1.8), 'junk': (0, 9)})
+    if which == 'core-halo':             # compound model: both components share the position columns
+        m = Gaussian2D(1, 3.0, 4.0, 0.7, 0.7, 0.0) + Gaussian2D(0.1, -2.0, 1.0, 2.1, 1.6, 0.4)
+        return (m, 'x_mean_0', 'y_mean_0',
+                {'x_mean_0': 'x', 'x_mean_1': 'x', 'y_mean_0': 'y', 'y_mean_1': 'y', 'amplitude_0': 'core',
+                 'amplitude_1': 'halo'},
+                {'x': 'x', 'y': 'y', 'core': (1, 50), 'halo': (0.05, 2), 'x_stddev_0': (0.4, 1.0)})
+    if which == 'core-halo-samecol':     # shared column that carries the name of one of the parameters
+        m = Gaussian2D(1, 3.0, 4.0, 0.7, 0.7, 0.0) + Gaussian2D(0.1, -2.0, 1.0, 2.1, 1.6, 0.4)
+        return (m, 'x_mean_1', 'y_mean_1',
+                {'x_mean_0': 'x_mean_1', 'y_mean_0': 'y_mean_1', 'amplitude_1': 'amplitude_0'},
+                {'x_mean_1': 'x', 'y_mean_1': 'y', 'amplitude_0': (1, 50)})
+    if which == 'prf-renamed':           # every column renamed; partial map: fwhm keeps the model value
+        return (CircularGaussianPRF(fwhm=1.7), 'x_0', 'y_0', {'x_0': 'xc', 'y_0': 'yc', 'flux': 'f'},
+                {'xc': 'x', 'yc': 'y', 'f': (1, 50), 'x_0': (100, 200), 'y_0': (100, 200)})
+    # anisotropic PRF made round through one width column + a renamed position
+    return (GaussianPRF(x_fwhm=1.0, y_fwhm=2.5), 'x_0', 'y_0', {'x_fwhm': 'w', 'y_fwhm': 'w', 'x_0': 'col'},
+            {'col': 'x', 'y_0': 'y', 'flux': (1, 50), 'w': (0.8, 2.2), 'id': (1, 9)})
+
+
+MAP_MODELS = ['gauss-circ', 'core-halo', 'core-halo-samecol', 'prf-renamed', 'prf-round']
+
+
+def support_map_one(detail):
+    """params_map forms on library models: the image must be the superposition in which every model
+    parameter is set from ITS mapped column (params_map, else the column named like the parameter, else
+    the input model's own value)."""
+    from astropy.table import Table
+    from photutils.datasets import make_model_image
+    which = detail['model']
+    model, xn, yn, pmap, _ = _map_model(which)
+    ref = _map_model(which)[0]
+    (ny, nx), sh = detail['shape'], tuple(detail['model_shape'])
+
+    def table(order):
+        return Table({c: np.array([v[i] for i in order]) for c, v in detail['columns'].items()})
+    n = len(next(iter(detail['columns'].values())))
+    kw = dict(model_shape=sh, x_name=xn, y_name=yn, params_map=dict(pmap), discretize_method=detail['method'],
+              discretize_oversample=3)
+    try:
+        with warnings.catch_warnings():
+            warnings.simplefilter('ignore')
+            got = make_model_image((ny, nx), model, table(range(n)), **kw)
+            g2 = make_model_image((ny, nx), model, table(detail['perm']), **kw)
+    except Exception as e:  # noqa: BLE001
+        return [('support:make_model_image:params-map:raises:' + type(e).__name__,
+                 'make_model_image raised on a valid table / params_map: ' + str(e)[:120])]
+    fails = []
+    if repr(model.parameters.tolist()) != repr(ref.parameters.tolist()):
+        fails.append(('support:make_model_image:inputs-modified', 'input model modified'))
+    want, mag = float_oracle((ny, nx), ref, table(range(n)), xn, yn, sh, detail['method'], 3, pmap=pmap)
+    if not close(np.asarray(got, float), want, mag, n):
+        fails.append(('support:make_model_image:params-map:superposition:' + which,
+                      'image differs from the superposition with every parameter set from its mapped column'))
+    if not close(np.asarray(g2, float), np.asarray(got, float), mag, n):
+        fails.append(('support:make_model_image:params-map:row-order:' + which, 'image depends on row order'))
+    return fails
+
+
+def support_maps(ctx, n):
+    rng = ctx.rng
+    for it in range(n):
+        which = MAP_MODELS[it % len(MAP_MODELS)]
+        spec = _map_model(which)[4]
+        ny, nx = rng.randint(5, 14), rng.randint(5, 14)
+        nrow = rng.randint(1, 5)
+        sh = (rng.randint(2, 7), rng.randint(2, 7))
+        cols = {}
+        for c, rngspec in spec.items():
+            if rngspec == 'x':
+                cols[c] = [rng.uniform(-1, nx + 1) for _ in range(nrow)]
+            elif rngspec == 'y':
+                cols[c] = [rng.uniform(-1, ny + 1) for _ in range(nrow)]
+            else:
+                cols[c] = [rng.uniform(*rngspec) for _ in range(nrow)]
+        p = list(range(nrow))
+        rng.shuffle(p)
+        detail = {'support': 'maps', 'model': which, 'shape': [ny, nx], 'model_shape': list(sh), 'columns': cols,
+                  'method': rng.choice(['center', 'center', 'oversample']), 'perm': p}
+        ctx.support(f'support:params-map:{which}')
+        ctx.count_case(['support-map', which, ny, nx, cols], True)
+        for sig, what in support_map_one(detail):
+            ctx.violation(sig, what, detail)
+
+
 def residual_callforms(phot, data, use_unit, psf_shape, inc, mimg):
     """make_residual_image over the call-form axis: the same image handed over as ndarray / Quantity,
     NDData (with the unit if any) and NDData with uncertainty + mask.  Every form must give
@@ -844,7 +971,8 @@ def support_psfphot(ctx, n):
     for it in range(n):
         ny, nx = rng.randint(15, 25), rng.randint(15, 25)
         iterative = it % 3 == 2
-        nsrc = rng.randint(2 if iterative else 1, 4)
+        shuffled_ids = it % 3 != 1          # init_params carries an id column that is NOT ascending
+        nsrc = rng.randint(2 if iterative or shuffled_ids else 1, 4)
         fw = rng.choice([2.0, 2.5, 3.0])
         psf = CircularGaussianPRF(fwhm=fw)
         psf_ref = CircularGaussianPRF(fwhm=fw)        # never handed to the code under test
@@ -872,9 +1000,15 @@ def support_psfphot(ctx, n):
         if lbsrc == 'column':
             bk0 = np.array([rng.uniform(0.2, 0.9) for _ in range(ninit)])
             init['local_bkg'] = bk0 * u.Jy if use_unit else bk0
+        ids = None
+        if shuffled_ids and ninit >= 2:
+            ids = list(range(1, ninit + 1))
+            while ids == sorted(ids):
+                rng.shuffle(ids)
+            init['id'] = ids
         d = data * u.Jy if use_unit else data
         detail = {'shape': [ny, nx], 'x': xs, 'y': ys, 'flux': fl, 'unit': use_unit, 'localbkg': lbsrc,
-                  'iterative': iterative}
+                  'iterative': iterative, 'init_ids': ids}
         with warnings.catch_warnings():
             warnings.simplefilter('ignore')
             try:
@@ -904,7 +1038,8 @@ def support_psfphot(ctx, n):
                         continue
                     ctx.support('psfphot:model_image' + (':iterative' if iterative else ''))
                     ctx.stat('psfphot', f'localbkg={lbsrc}:include={inc}:nonzero='
-                             f'{bool(np.any(_arr(res["local_bkg"]) != 0))}')
+                             f'{bool(np.any(_arr(res["local_bkg"]) != 0))}:ids='
+                             f'{"shuffled" if ids else "default"}')
                     cf = residual_callforms(phot, data, use_unit, psf_shape, inc, mimg)
                     if cf:
                         ctx.violation(cf[0], cf[1], dict(detail, psf_shape=psf_shape, include_localbkg=inc))
@@ -939,7 +1074,8 @@ def support_psfphot(ctx, n):
                         break
                     want, mag = float_oracle((ny, nx), psf_ref, tb, 'x_0', 'y_0', sh)
                     if not close(np.asarray(getattr(mimg, 'value', mimg), float), want, mag, len(tb)):
-                        ctx.violation('support:psfphot:superposition',
+                        ctx.violation('support:psfphot:superposition'
+                                      + (':shuffled-ids:include_localbkg' if ids and inc else ''),
                                       'PSFPhotometry.make_model_image differs from the superposition of the '
                                       'fitted sources', dict(detail, psf_shape=psf_shape, include_localbkg=inc))
 
@@ -990,6 +1126,8 @@ def history_run(detail, on_request=None):
         init['flux'] = np.array(fl[:ninit]) * u.Jy if use_unit else np.array(fl[:ninit])
         if step.get('bkg_init') is not None:
             init['local_bkg'] = np.array(step['bkg_init']) * u.Jy if use_unit else np.array(step['bkg_init'])
+        if step.get('ids') is not None:
+            init['id'] = list(step['ids'])
         d = data * u.Jy if use_unit else data
         with warnings.catch_warnings():
             warnings.simplefilter('ignore')
@@ -1043,7 +1181,9 @@ def history_run(detail, on_request=None):
                         ((psf_shape, psf_shape) if isinstance(psf_shape, int) else tuple(psf_shape))
                     want, mag = float_oracle((ny, nx), psf_ref, tb, 'x_0', 'y_0', sh)
                     if not close(_arr(mimg), want, mag, len(tb)):
-                        return ('support:psfphot-history:superposition', 'model image is not the superposition of '
+                        return ('support:psfphot-history:superposition'
+                                + (':shuffled-ids:include_localbkg' if step.get('ids') and inc else ''),
+                                'model image is not the superposition of '
                                 'the results table of the LAST call', extra), done
                 # the caller may scribble on what it got; later requests must not see it
                 try:
@@ -1096,7 +1236,17 @@ def support_psfphot_history(ctx, n):
                          'y_init': [y + rng.uniform(-0.3, 0.3) for y in ys[:ninit]],
                          'bkg_init': [rng.uniform(0.2, 0.9) for _ in range(ninit)]
                          if detail['localbkg'] == 'column' else None,
+                         'ids': None,
                          'requests': [[list(a) if isinstance(a, tuple) else a, b] for a, b in reqs]})
+
+        for k, step in enumerate(hist):
+            # every other image: an id column that is a non-ascending permutation
+            if (k + it) % 2 == 0 and step['n_init'] >= 2:
+                ids = list(range(1, step['n_init'] + 1))
+                while ids == sorted(ids):
+                    rng.shuffle(ids)
+                step['ids'] = ids
+                ctx.stat('psfphot-history', f'{kind}:image_with_shuffled_ids:localbkg={detail["localbkg"]}')
 
         def on_request(k, psf_shape, inc, nfit, kind=kind, detail=detail):
             ctx.support('psfphot-history:' + kind)
@@ -1302,6 +1452,7 @@ def run(ctx):
         'bounding box with/without bbox_factor}, per-axis placement in {inside, window ending exactly at the '
         'lower edge, one row/column on the image, starting exactly past / on the last pixel, far off, random} '
         'x sub-pixel offset, local_bkg column, three parameter-name sets, params_map aliases / decoy columns / '
+        'NON-injective maps (several parameters <- one column, incl. both position parameters) / '
         'invalid maps, unit-ful tables and unit-ful models, discretisation center / interp / oversample(2,4); '
         'non-trivial = call accepted and at least one row contributes; distinct = distinct case dictionaries')
     ctx.assumptions += [
@@ -1343,6 +1494,9 @@ def run(ctx):
         'psf_shape None and explicit: model image == superposition of the results table incl. every fitted extra '
         'column on per-source bounding-box windows, residual == data - model, residual ~ 0 when the truth was '
         'recovered (support test)',
+        'source ids: init_params with an id column that is a non-ascending permutation (psfphot and history tests, '
+        'every run) x differing local backgrounds (column / estimator) x include_localbkg: each source must get ITS '
+        'OWN local_bkg (oracle = results table rows)',
         'histories: one PSFPhotometry / IterativePSFPhotometry (new, all) instance re-used on 2-3 different images '
         'with model / residual images requested between and after the calls (varying and repeated arguments): '
         'iterative kinds with exactly 1 and with >= 2 fit iterations (maxiters 1 / 3, source left for the finder or '
@@ -1418,6 +1572,7 @@ def run(ctx):
                           'property holds on this input', detail, found_input=False)
     support_models(ctx, 60 if not thorough else 500)
     support_windows(ctx, 28 if not thorough else 210)
+    support_maps(ctx, 20 if not thorough else 150)
     support_psf_sim(ctx, 10 if not thorough else 60)
     support_psfphot(ctx, 9 if not thorough else 45)
     support_psfphot_history(ctx, 9 if not thorough else 45)
@@ -1440,6 +1595,12 @@ def replay(obj):
             print('FAILS:', fail[0], '-', fail[1], fail[2])
         print('property holds on this history' if not fail else 'property FAILS on this history')
         return 0 if not fail else 1
+    if r.get('support') == 'maps':
+        fails = support_map_one(r)
+        for sig, what in fails:
+            print('FAILS:', sig, '-', what)
+        print('property holds on this input' if not fails else 'property FAILS on this input')
+        return 0 if not fails else 1
     if r.get('support') == 'models':
         fails = support_one(r)
         for sig, what in fails:
